@@ -1,0 +1,11 @@
+//go:build !verif
+
+package encoder
+
+// No-op twins of the slot-access assertions in verif_slots.go (build tag verif).
+
+func VerifSlotLoad(base uintptr, idx uint32)  {}
+func VerifSlotStore(base uintptr, idx uint32) {}
+func verifSlotInit(c *RuntimeContext)         {}
+func verifSlotPtrs(c *RuntimeContext)         {}
+func verifSlotRelease(c *RuntimeContext)      {}
